@@ -53,7 +53,10 @@ def gen(rng, tier):
     ops.sort()
     return {'mode': 'b', 'runtime': runtime, 'ops': ops, 'kinds': [kind],
             'delay_max': rng.choice([0.0, 0.05]),
-            'close_time': rng.choice([0.0, 0.0, 0.3, 2.0])}
+            'close_time': rng.choice([0.0, 0.0, 0.3, 2.0]),
+            # fault kind `slow`: the thread which handles control messages is
+            # descheduled inside its handlers (up to a work loop period)
+            'slow_ctl': rng.choice([0.0, 0.0, 0.3])}
 
 
 class _RM(object):
@@ -84,6 +87,8 @@ def run(seed, scenario, trace=None, tier='quick'):
         def driver():
             root = sim.data['tmp']
             sim.data['session_close_time'] = sc.get('close_time', 0.0)
+            if sc.get('slow_ctl'):
+                sim.slow['agent_0.sub.'] = (sc['slow_ctl'], 1.2)
             os.chdir(root)
             pid  = 'pilot.0000'
             side = C.Side(sim, pid)
@@ -207,7 +212,9 @@ def run(seed, scenario, trace=None, tier='quick'):
             for tc, state in causes:
                 if tc <= t_first + eps:
                     if state == 'TERMINATE':
-                        allowed |= {rps.CANCELED, rps.FAILED}
+                        # a `terminate` command is a request to end (the
+                        # client closes its session): no failure
+                        allowed.add(rps.CANCELED)
                     else:
                         allowed.add(state)
             if not ended:
@@ -250,4 +257,6 @@ def shrink(sc):
         c = dict(sc); c['runtime'] = 1; out.append(c)
     if sc['delay_max']:
         c = dict(sc); c['delay_max'] = 0.0; out.append(c)
+    if sc.get('slow_ctl'):
+        c = dict(sc); c['slow_ctl'] = 0.0; out.append(c)
     return out
